@@ -475,6 +475,56 @@ pub fn rlp_encode(bits: u32, x: &BigUint, list_with: Option<&BigUint>) -> Option
     }, else { None })
 }
 
+/// RLP list of n integers through `RlpStream::new_list(n)` + n appends; returns the bytes and, for decodable
+/// widths, the values read back with `Rlp::val_at(i)`.
+pub fn rlp_list_roundtrip(bits: u32, items: &[BigUint]) -> Option<Result<(Vec<u8>, Option<Vec<BigUint>>), PanicInfo>> {
+    with_der_type!(bits, T, {
+        let vals: Vec<T> = items.iter().map(|x| uint_from_big::<T>(x, (bits / 8) as usize)).collect();
+        let g = guard(|| {
+            let mut s = rlp::RlpStream::new_list(vals.len());
+            for v in &vals {
+                s.append(v);
+            }
+            s.out().to_vec()
+        });
+        let bytes = match g {
+            Guarded::Done(b) => b,
+            Guarded::Panic(p) => return Some(Err(p)),
+            Guarded::Budget => return None,
+        };
+        let back = with_rlp_dec_type!(bits, D, {
+            let n = items.len();
+            let b2 = bytes.clone();
+            match guard(move || {
+                let r = rlp::Rlp::new(&b2);
+                (0..n).map(|i| r.val_at::<D>(i).map(|v| val(&v))).collect::<Result<Vec<_>, _>>().ok()
+            }) {
+                Guarded::Done(v) => v,
+                Guarded::Panic(p) => return Some(Err(p)),
+                Guarded::Budget => None,
+            }
+        }, else { None });
+        Some(Ok((bytes, back)))
+    }, else { None })
+}
+
+fn rlp_list_reference(items: &[BigUint]) -> Vec<u8> {
+    let mut body = Vec::new();
+    for x in items {
+        body.extend(codec::rlp_encode(x));
+    }
+    let mut want = if body.len() < 56 {
+        vec![0xc0 + body.len() as u8]
+    } else {
+        let lb: Vec<u8> = body.len().to_be_bytes().iter().copied().skip_while(|&v| v == 0).collect();
+        let mut h = vec![0xf7 + lb.len() as u8];
+        h.extend(lb);
+        h
+    };
+    want.extend(body);
+    want
+}
+
 // ---------------------------------------------------------------------------------------------
 // plans
 
@@ -797,6 +847,35 @@ fn exec(plan: &Plan, out: &mut RunOut) {
                                     format!("list of ({:#x}, {:#x}) encoded as {}, canonical {}", x, y, hex(&b[..b.len().min(40)]), hex(&want[..want.len().min(40)])),
                                     serde_json::to_value(Plan::Record { bits, rlp: true, value_be: x.to_bytes_be(), second_be: y.to_bytes_be(), nested: true, faults: vec![] }).ok(),
                                 );
+                            }
+                            // lists of three and four integers, with a zero at a non-final position
+                            for items in [vec![x.clone(), BigUint::zero(), y.clone()], vec![BigUint::zero(), y.clone(), x.clone(), BigUint::zero()]] {
+                                match rlp_list_roundtrip(bits, &items) {
+                                    Some(Ok((got, back))) => {
+                                        let want = rlp_list_reference(&items);
+                                        out.ev(&format!("enc/rlp-list{}/{}/{}", items.len(), bits, got.len()));
+                                        if got != want {
+                                            out.viol(
+                                                "C18/rlp-encode-noncanonical",
+                                                format!("w{}:list{}", bits, items.len()),
+                                                format!("list {:?} encoded as {}, canonical {}", items, hex(&got[..got.len().min(40)]), hex(&want[..want.len().min(40)])),
+                                                None,
+                                            );
+                                        } else if let Some(back) = back {
+                                            if back != items {
+                                                out.viol("C18/rlp-wrong-value", format!("Rlp::val_at:list{}", items.len()), format!("list {:?} read back as {:?}", items, back), None);
+                                            }
+                                        } else if RLP_DEC_WIDTHS.contains(&bits) {
+                                            out.viol("C18/rlp-rejects-good", format!("Rlp::val_at:list{}:w{}", items.len(), bits), format!("canonical list {:?} could not be read back", items), None);
+                                        }
+                                        out.count("probe:rlp-list-of-3-and-4");
+                                    }
+                                    Some(Err(p)) => {
+                                        out.viol("C11/unexpected-panic", format!("rlp-list:{}", p.location), format!("list of {} integers: {}", items.len(), p.message), None);
+                                        out.viol("C18/rlp-encode-noncanonical", format!("w{}:list{}:panic", bits, items.len()), format!("encoding a list of {} integers panicked at {}: {}", items.len(), p.location, p.message), None);
+                                    }
+                                    None => {}
+                                }
                             }
                             Some(b)
                         }
